@@ -3,6 +3,7 @@ package main
 import (
 	"fmt"
 	"go/types"
+	"strings"
 
 	"golang.org/x/tools/go/ssa"
 )
@@ -62,7 +63,7 @@ func (r *Run) subObj(structK string, f string, base string) string {
 	if !r.once[key] {
 		r.once[key] = true
 		id := r.kindID("sub|" + structK + "|" + f)
-		r.facts.Assert(fmt.Sprintf("(and (= (%s %s) %s) (= (refkind %s) %d) (< %s 0))", inv, t, base, t, id, t))
+		r.facts.Assert(fmt.Sprintf("(and (= (%s %s) %s) (= (refkind %s) %d) (< %s 0) (= (root %s) (root %s)))", inv, t, base, t, id, t, t, base))
 	}
 	return t
 }
@@ -80,7 +81,7 @@ func (r *Run) elemObj(elemK string, base, idx string) string {
 	if !r.once[key] {
 		r.once[key] = true
 		id := r.kindID("eobj|" + elemK)
-		r.facts.Assert(fmt.Sprintf("(and (= (%s %s) %s) (= (%s %s) %s) (= (refkind %s) %d) (< %s 0))", inv1, t, base, inv2, t, idx, t, id, t))
+		r.facts.Assert(fmt.Sprintf("(and (= (%s %s) %s) (= (%s %s) %s) (= (refkind %s) %d) (< %s 0) (= (root %s) (root %s)))", inv1, t, base, inv2, t, idx, t, id, t, t, base))
 	}
 	return t
 }
@@ -142,7 +143,7 @@ func (r *Run) load(st *State, p Val) Val {
 				return Val{K: KInvalid, T: et}
 			}
 			key := r.cellKey(et)
-			v := Val{K: k, T: et, S: sSelect(r.get(st, key), p.S)}
+			v := Val{K: k, T: et, S: r.readArr(r.get(st, key), p.S)}
 			return r.loaded(st, v, key, p.S)
 		}
 		switch p.P.Kind {
@@ -157,15 +158,18 @@ func (r *Run) load(st *State, p Val) Val {
 			key := "F|" + p.P.Struct + "|" + p.P.Field
 			_, srt := kindOf(et)
 			r.declKey(key, "(Array Int "+srt+")")
-			v := Val{K: k, T: et, S: sSelect(r.get(st, key), p.P.Base)}
+			v := Val{K: k, T: et, S: r.readArr(r.get(st, key), p.P.Base)}
 			return r.loaded(st, v, key, p.P.Base)
 		case PElem:
 			key := r.elemKey(et)
 			v := Val{K: k, T: et, S: sSelect(sSelect(r.get(st, key), p.P.Base), p.P.Index)}
 			return r.loaded(st, v, key, p.P.Base)
 		case PCell:
+			if cv := r.constCell[p.P.Base]; cv != nil {
+				return *cv
+			}
 			key := r.cellKey(et)
-			v := Val{K: k, T: et, S: sSelect(r.get(st, key), p.P.Base)}
+			v := Val{K: k, T: et, S: r.readArr(r.get(st, key), p.P.Base)}
 			return r.loaded(st, v, key, p.P.Base)
 		}
 	}
@@ -174,6 +178,9 @@ func (r *Run) load(st *State, p Val) Val {
 
 // loaded names a loaded value and attaches its type invariants.
 func (r *Run) loaded(st *State, v Val, key, idx string) Val {
+	if r.inQuant > 0 && strings.Contains(v.S, "!q") {
+		return v
+	}
 	memo := "ld|" + v.S
 	if n, ok := r.loadMemo[memo]; ok {
 		v.S = n
@@ -192,7 +199,7 @@ func (r *Run) loaded(st *State, v Val, key, idx string) Val {
 	case KSlice:
 		r.assumeWellTyped(v, st)
 	case KRef, KPtr:
-		r.facts.Assert(fmt.Sprintf("(<= %s %s)", v.S, r.get(st, "g|$heap")))
+		r.facts.Assert(fmt.Sprintf("(<= (root %s) %s)", v.S, r.get(st, "g|$heap")))
 	case KIface:
 		r.facts.Assert(fmt.Sprintf("(= (= %s 0) (= (itag %s) 0))", v.S, v.S))
 	}
@@ -226,7 +233,7 @@ func (r *Run) globalAddr(name string) string {
 	c := r.facts.Const(sym("gaddr|"+name), "Int")
 	if !r.once["gaddr|"+name] {
 		r.once["gaddr|"+name] = true
-		r.facts.Assert(fmt.Sprintf("(and (< %s 0) (= (refkind %s) %d))", c, c, r.kindID("gaddr|"+name)))
+		r.facts.Assert(fmt.Sprintf("(and (< %s 0) (= (refkind %s) %d) (= (root %s) %s))", c, c, r.kindID("gaddr|"+name), c, c))
 	}
 	return c
 }
@@ -267,7 +274,7 @@ func (r *Run) store(st *State, p Val, v Val) bool {
 				return false
 			}
 			key := r.cellKey(et)
-			r.set(st, key, sStore(r.get(st, key), p.S, v.S))
+			r.setStore(st, key, r.get(st, key), p.S, v.S)
 			return true
 		}
 		switch p.P.Kind {
@@ -288,7 +295,7 @@ func (r *Run) store(st *State, p Val, v Val) bool {
 			key := "F|" + p.P.Struct + "|" + p.P.Field
 			_, srt := kindOf(et)
 			r.declKey(key, "(Array Int "+srt+")")
-			r.set(st, key, sStore(r.get(st, key), p.P.Base, v.S))
+			r.setStore(st, key, r.get(st, key), p.P.Base, v.S)
 			return true
 		case PElem:
 			key := r.elemKey(et)
@@ -297,7 +304,7 @@ func (r *Run) store(st *State, p Val, v Val) bool {
 			return true
 		case PCell:
 			key := r.cellKey(et)
-			r.set(st, key, sStore(r.get(st, key), p.P.Base, v.S))
+			r.setStore(st, key, r.get(st, key), p.P.Base, v.S)
 			return true
 		}
 	}
@@ -308,8 +315,9 @@ func (r *Run) store(st *State, p Val, v Val) bool {
 func (r *Run) alloc(st *State, prefix string) string {
 	a := r.facts.Fresh(prefix, "Int")
 	h := r.get(st, "g|$heap")
-	r.facts.Assert(fmt.Sprintf("(and (> %s %s) (> %s 0) (= (refkind %s) 0))", a, h, a, a))
+	r.facts.Assert(fmt.Sprintf("(and (> %s %s) (> %s 0) (= (refkind %s) 0) (= (root %s) %s))", a, h, a, a, a, a))
 	st.mem["g|$heap"] = a
+	r.allocs[a] = true
 	return a
 }
 
@@ -328,7 +336,7 @@ func (r *Run) ptrTerm(p Val) string {
 		t := sApp(fn, p.P.Base)
 		if !r.once["addrax|"+t] {
 			r.once["addrax|"+t] = true
-			r.facts.Assert("(< " + t + " 0)")
+			r.facts.Assert("(and (< " + t + " 0) (= (root " + t + ") (root " + p.P.Base + ")))")
 		}
 		return t
 	case PElem:
@@ -337,7 +345,7 @@ func (r *Run) ptrTerm(p Val) string {
 		t := sApp(fn, p.P.Base, p.P.Index)
 		if !r.once["addrax|"+t] {
 			r.once["addrax|"+t] = true
-			r.facts.Assert("(< " + t + " 0)")
+			r.facts.Assert("(and (< " + t + " 0) (= (root " + t + ") (root " + p.P.Base + ")))")
 		}
 		return t
 	case PCell:
